@@ -114,8 +114,9 @@ class Session:
                            'internal_errors': s.internal, **s.extra},
               'assumptions': s.assumptions, 'wall_s': round(time.time() - s.t0, 2), 'violations': len(s.violations)}
         if s.level == 'other': ev['coverage']['explanation'] = rule
-        os.makedirs(os.path.join(VERIF, 'evidence'), exist_ok=True)
-        json.dump(ev, open(os.path.join(VERIF, 'evidence', s.prop + '.json'), 'w'), indent=1, default=str)
+        EVD = os.environ.get('XV_EVIDENCE_DIR') or os.path.join(VERIF, 'evidence')
+        os.makedirs(EVD, exist_ok=True)
+        json.dump(ev, open(os.path.join(EVD, s.prop + '.json'), 'w'), indent=1, default=str)
         for l in lines: print(l)
         print('%s %s: obligations=%d discharged=%d undecided=%d unconfirmed=%d violations=%d solver=%.1fs wall=%.1fs' % (
             s.prop, s.tier, s.obl, s.dis, len(s.undecided), len(s.unconfirmed), len(s.violations), s.dec.solver_s, time.time() - s.t0))
